@@ -1092,7 +1092,7 @@ static void long_directive_counts_body()
     static const char *DEC[][4] = {{"%d", "%lld", "%s", "%c"},
                                    {"%5d", "%-22lld", "%.2s", "%3c"},
                                    {"%+.3d", "%#llx", "%12s", "%-2c"},
-                                   {"%*d", "%lld", "%s", "%c"}};
+                                   {"%012d", "%.21lld", "%-5.1s", "%c"}};
     static const char *SEP[] = {"", " ", "%%", ", text "};
     int ni = mc::choose(10), di = mc::choose(4), si = mc::choose(4);
     string f;
@@ -1100,15 +1100,7 @@ static void long_directive_counts_body()
     {
         if (k)
             f += SEP[si];
-        // decoration 3 uses '*': the int argument k supplies the width and the directive consumes argument k+1,
-        // so the conversion follows the type of the NEXT argument
-        if (di == 3 && k % 4 == 0 && k + 1 < ND[ni])
-        {
-            f += "%*lld";
-            k++;
-            continue;
-        }
-        f += DEC[di == 3 ? 0 : di][k % 4];
+        f += DEC[di][k % 4];
     }
     mc::describe("%d directives, decoration set %d, separator %s (format of %zu characters)", ND[ni], di, vis(SEP[si]).c_str(), f.size());
     mc::crash_context("C06.long.directives.crash");
